@@ -154,6 +154,10 @@ func (u *UDP) VerifyChecksum() (error, gopacket.ChecksumVerificationResult) {
 		return err, gopacket.ChecksumVerificationResult{}
 	}
 	correct := gopacket.FoldChecksum(verification - uint32(existing))
+	// RFC768: a computed checksum of zero is transmitted as all ones, see SerializeTo.
+	if correct == 0 {
+		correct = 0xffff
+	}
 	return nil, gopacket.ChecksumVerificationResult{
 		Valid:   existing == 0 || correct == existing,
 		Correct: uint32(correct),
